@@ -62,6 +62,11 @@ def histories(draw):
             if q is not None:
                 ops.append(["clear", q[1], q[2]])
             continue
+        if k == 6 and draw(st.integers(0, 11)) == 0:
+            for op in handled_failure_scenario(draw, G):
+                if op[0] == "eval" or gen.apply_edit_to_picture(G, op):
+                    ops.append(op)
+            continue
         if k == 5 and draw(st.booleans()):
             for op in aimed_scenario(draw, G):
                 if op[0] == "eval" or gen.apply_edit_to_picture(G, op):
@@ -135,6 +140,32 @@ def aimed_scenario(draw, G):
         out.append(["set_cells_formula", p, name, gen.gen_cells_def(draw, G, sp, name, FEAT, params=cdef.params)])
     else:
         out.append(["set_cached", p, name, False])
+    return out
+
+
+def handled_failure_scenario(draw, G):
+    """a cells whose formula catches the failure of a callee and answers with a fallback; after it was
+    evaluated the callee is repaired (new formula / assigned value): the fallback must not survive"""
+    spaces = [s for s in G.all_spaces() if G.find_cells(s, "hb0") is None and G.find_cells(s, "hs0") is None
+              and "hb0" not in s.children and "hs0" not in s.children]
+    if not spaces:
+        return []
+    s = draw(st.sampled_from(spaces))
+    p = list(s.path)
+    hb = {"name": "hb0", "params": [["x", None]], "expr": ["bin", "+", ["mod", ["lit", 7], 0], ["var", "x"]],
+          "cached": draw(st.integers(0, 3)) != 0, "allow_none": None, "form": draw(st.sampled_from(["lambda", "def"])),
+          "tick": False}
+    hs = {"name": "hs0", "params": [["x", None]],
+          "expr": ["bin", "+", ["try", ["call", ["name", "hb0"], [["var", "x"]], "()"], ["lit", -1]], ["lit", 0]],
+          "cached": True, "allow_none": None, "form": "lambda", "tick": False}
+    out = [["new_cells", p, hb], ["new_cells", p, hs]]
+    for a in range(draw(st.integers(1, 2))):
+        out.append(["eval", p, "hs0", [a], None, "()"])
+    if hb["cached"] and draw(st.booleans()):
+        out.append(["set_value", p, "hb0", [0], draw(st.integers(40, 60))])
+    else:
+        good = dict(hb, expr=["bin", "+", ["var", "x"], ["lit", draw(st.integers(100, 120))]])
+        out.append(["set_cells_formula", p, "hb0", good])
     return out
 
 
@@ -226,7 +257,18 @@ def run_battery(real):
     return answers
 
 
-def run_case(case):
+def _clear_try_cells(live):
+    """(signature evaluation only) drop the values of every cells whose formula handles failures itself"""
+    for (sid, name) in list(live.held()):
+        try:
+            c = live.ctx(sid).cells[name]
+            if "_try(" in c.formula.source:
+                c.clear()
+        except Exception:
+            pass
+
+
+def run_case(case, assist=False):
     out = Outcome()
     reset_session()
     live = Real("L", hooks=True)
@@ -242,6 +284,8 @@ def run_case(case):
             else:
                 live.apply(op)          # cache operation: live model only
             continue
+        if assist:
+            _clear_try_cells(live)
         held_before = live.held() if evaluated else {}
         res = live.apply(op)
         edits.append((op, res[0], res[1] if res[0] != "ok" else None))
@@ -288,4 +332,22 @@ def run_case(case):
 # ----------------------------------------------------------------------------
 # known-finding signatures
 
-SIGNATURES = {}
+def sig_handled_failure_dependency(case, failure):
+    """KF-C02-11: the stale value is explained by 'a formula caught the failure of a callee; no dependency on the
+    failed element was recorded': the case has a formula that handles failures, and the staleness disappears when
+    the values of exactly those cells (and, through the graph, what was computed from them) are dropped before
+    every edit.  Any other cause of staleness still fails under that assistance and is reported."""
+    from ..expr import walk
+    if failure.get("oracle") != "stale-value":
+        return False
+    has_try = False
+    for op in case["ops"]:
+        d = op[2] if op[0] == "new_cells" else op[3] if op[0] == "set_cells_formula" else None
+        if isinstance(d, dict) and any(n[0] == "try" for n in walk(d["expr"])):
+            has_try = True
+    if not has_try:
+        return False
+    return run_case(case, assist=True).failure is None
+
+
+SIGNATURES = {"handled_failure_dependency": sig_handled_failure_dependency}
